@@ -102,6 +102,10 @@ def generate(job):
 def gen_op(ro, pool, depth, faulty):
     k = ro.choice(pool)
     op = {"k": k, "i": ro.randrange(1000), "v": round(ro.uniform(-3, 3), 4)}
+    if k == "set" and ro.chance(0.25):
+        # edge values: exact zero, exact multiples of pi (branch cut of the phase wrap), negative radius
+        op["v"] = ro.choice([0.0, math.pi, -math.pi, 3 * math.pi, 5 * math.pi, -3 * math.pi, -1.0, 2 * math.pi])
+        op["fit"] = False
     if k in ("set", "get"):
         op["fit"] = ro.choice([True, True, False])
     if k in ("set_all_dict",):
@@ -559,6 +563,14 @@ class Session:
                     zr = self.zval(var.name, obs)
                     if abs(z - zr) > 1e-12 * (1 + abs(zr)):
                         self.fail("tied-read-equal", k, "Variable %s() = %r but its components give %r" % (var.name, z, zr))
+                elif var.cplx and var.shape and not any(n in self.mask for n in var.all_name_list):
+                    # an array-valued parameter read as a whole: every component in its own coordinate form
+                    zs = np.array(var().numpy()).reshape(-1)
+                    comps = [n[:-1] for n in var.all_name_list if n.endswith("r")]
+                    for z, c in zip(zs, comps):
+                        zr = self.zval(c, obs)
+                        if abs(complex(z) - zr) > 1e-12 * (1 + abs(zr)):
+                            self.fail("tied-read-equal", k, "component %s of the array parameter %s reads %r through Variable() but its stored components give %r (polar flag %s)" % (c, var.name, complex(z), zr, vm.complex_vars.get(c)))
             allv = vm.get_all_val()
             for n, v in zip(vm.trainable_vars, allv):
                 if n in self.gid and n not in self.mask and float(v) != self.val[self.gid[n]]:
